@@ -127,7 +127,6 @@ func vfIsValidNF(c *Coordinate) bool {
 //
 //vf:unwind 16
 //vf:bound values vector of 0..3 components; every double in every field
-//vf:nonative
 func VfC20_IsValid() {
 	n := vfChoice("len", 4)
 	c := &Coordinate{Vec: make([]float64, n), Error: vfF64("e"), Adjustment: vfF64("a"), Height: vfF64("h")}
@@ -409,7 +408,6 @@ func VfC20_Update() {
 //
 //vf:unwind 24
 //vf:bound state filter size 2; 0..2 earlier samples and the new one: any double
-//vf:nonative
 func VfC20_Filter() {
 	cfg := DefaultConfig()
 	cfg.Dimensionality = 1
